@@ -186,7 +186,9 @@ class C06(Check):
 
     def make_world(self, run, rundir):
         dens = run.get("density", 1.0)
-        return CrashWorld(run["backend"], rundir, density=dens, sample_rng=stream(run.get("sample_seed", 0), "crash-sample"))
+        w = CrashWorld(run["backend"], rundir, density=dens, sample_rng=stream(run.get("sample_seed", 0), "crash-sample"))
+        w.diagnose = bool(run.get("diagnose"))
+        return w
 
     def gen(self, seed, idx, tier):
         rs = Streams(derive(seed, self.prop, idx))
@@ -282,6 +284,16 @@ class C06(Check):
         rc, compared, bad = selftest.crashstub(nruns=24 if tier == "quick" else 300, kills_per_run=4 if tier == "quick" else 8, seed=seed)
         errs = ["crash stub unfaithful: %d of %d real kills disagree with the snapshot stub" % (bad, compared)] if bad else []
         return errs, {"traces_validated_against_impl": compared, "real_process_deaths_compared_with_stub": compared, "stub_vs_real_disagreements": bad}
+
+    def confirm(self, run, result):
+        """Attribution guard: replay the minimised history once more with a read through the live connection
+        after every operation.  If the live store ever differs from the reference write log, the model
+        mispredicted what an operation did (C02/C04/C05's subject) and C06 does not report."""
+        rd = os.path.join(seams.SCRATCH_ROOT, "confirm-diagnose")
+        res = self.execute(dict(run, diagnose=True, density=0.0), rd)
+        if res["status"] == "abandoned" and res.get("tag") in ("C02", "C04", "C05"):
+            return False, "diagnostic replay: %s" % res["message"]
+        return True, None
 
     def minimise_prepare(self, run):
         return dict(run, density=1.0)
